@@ -6,11 +6,11 @@ PROP = {
     "level": "exploration",
     "technique": "runtime monitor: algebraic-law oracle over generated annotation types (check_type_compact, TypeOps::union_all vs folded TypeOps::Union, assign-type-mismatch diagnostics) in the repository's VirtualWorkspace",
     "design_ref": "§4 C16",
-    "rule": "one batch = one generated class hierarchy (chain of 4, diamond, random extra classes, generic classes with plain subclasses, a class derived from string, aliases incl. a multi-line one, 3 enums) + 40 generated annotation types (depth <= 4 quick, <= 6 for a quarter of the thorough batches) + 20 union batches of 1-5 types; "
+    "rule": "one batch = one generated class hierarchy (chain of 4, diamond, random extra classes, generic classes Box<T>/Pair<K,V>, a generic chain H1<T>:H0<T>:Box<T> with plain subclasses, a class derived from string, plain aliases incl. a multi-line one, generic aliases M0<T>/R0<K,V>, 3 enums) + 40 generated annotation types (depth <= 4 quick, <= 6 for a quarter of the thorough batches) + 20 union batches of 1-5 types; "
             "one evaluation = (type or batch, law); distinct = FNV of (law, printed annotation(s)); non-trivial = the type AST has >= 3 nodes (ancestor law: distance >= 2 or a generic/primitive ancestor; union law: >= 2 elements)",
-    "min_nontrivial": {"quick": 20000, "thorough": 300000},
-    "max_secs": {"quick": 60, "thorough": 900},
-    "require_clauses": ["law:reflexive-same", "law:reflexive-reparsed", "law:diag-reflexive", "law:member-own", "law:member-annotated", "law:ancestor", "law:any", "law:unknown", "law:union-batch"],
+    "min_nontrivial": {"quick": 400000, "thorough": 2000000},
+    "max_secs": {"quick": 75, "thorough": 1000},
+    "require_clauses": ["law:reflexive-same", "law:reflexive-reparsed", "law:diag-reflexive", "law:member-own", "law:member-annotated", "law:ancestor", "law:ancestor:generic-descendant", "law:any", "law:unknown", "law:union-batch"],
     "assumptions": COMMON_ASSUME + [
         "types are obtained through `---@type <T>` annotations on locals (and a few literal expressions for the union law); a type the annotation pipeline collapses (e.g. `unknown[]` -> unknown) is tested as what it collapsed to",
         "union_all vs fold is compared on member *sets*; a difference only in duplicated members is counted as inconclusive (union-dup-members), not as a violation",
